@@ -102,13 +102,17 @@ SIG_FORK = "C07-fork-thread-child-edge-timing"
 SIG_NEW = "C07-call-graph-differs-across-schedules"
 
 RES = ["r0", "r1", "g"]
-HARD_STOP = {"quick": 27, "thorough": 380}      # CPU seconds of this process after which no further schedule is started
+HARD_STOP = {"quick": 22, "thorough": 380}      # CPU seconds of this process after which no further schedule is started
 HARD_WALL = {"quick": 70, "thorough": 540}      # wall-clock safety net (loaded machine)
 
 
+_CPU0 = [0.0]
+
+
 def cpu():
+    """CPU seconds of this process since run() started (imports are a fixed cost, 2-10 s depending on the load)"""
     import time
-    return time.process_time()
+    return time.process_time() - _CPU0[0]
 T_SLOW, T_FORKMAIN = 3, 99
 
 
@@ -930,12 +934,14 @@ def probe_recount(ctx, env):
 
 # =========================================================================================== run
 def run(ctx):
+    import time
     import ctl_sched
     ctl_sched.quiet()
+    _CPU0[0] = time.process_time()
     env = Env()
     ctx.batch = Batch(ctx)
     thorough = ctx.tier == "thorough"
-    budget = 22 if ctx.tier == "quick" else 300          # CPU seconds of this process (time.process_time)
+    budget = 17 if ctx.tier == "quick" else 300          # CPU seconds of this process (time.process_time)
     try:
         t_start = ctx.elapsed()
         recount, hf_re = probe_recount(ctx, env)
